@@ -460,6 +460,16 @@ def reporters(ctx):
                 while isinstance(b, ast.Subscript):
                     b = b.value
                 if isinstance(b, ast.Attribute) and isinstance(b.value, ast.Name) and b.value.id == 'self':
+                    from ..lib import validated_against_question
+                    try:
+                        checked = validated_against_question(ctx.M, m, {b.attr}, depth=0)
+                    except Exception:
+                        checked = False
+                    if checked:
+                        # a memo whose hit is compared with the curve passed in (cached_source.equals(returns)): not, by its presence, the strategy's numbers for the benchmark
+                        ctx.undecided('C17.S4', 'statistics are recomputed from the curve passed in (no cache on the reporter)', m.site(n_),
+                                      '%s keeps self.%s and compares what it kept with its arguments before using it: whether that check is sufficient is not decided here' % (m.qn, b.attr))
+                        continue
                     ctx.violation('C17.S4', 'statistics are recomputed from the curve passed in (no cache on the reporter)', m.site(n_),
                                   '%s writes self.%s: a memo not keyed by the curve makes the benchmark section reuse the strategy\'s numbers' % (m.qn, b.attr),
                                   key='C17.S4|cache|%s' % m.qn)
